@@ -51,12 +51,17 @@ NoLast == [p |-> FALSE, v |-> 0, w |-> 0, t |-> 0, dead |-> FALSE, amb |-> FALSE
            acc |-> 0, accLo |-> 0]
 NoInv == [on |-> FALSE, targeted |-> {}, amb |-> {}, pre |-> {}, now |-> 0, settled |-> FALSE]
 NoPend == [on |-> FALSE, k |-> 0, v |-> 0, w |-> 0, fits |-> FALSE, fresh |-> FALSE,
-           keep |-> {}, now |-> 0]
+           keep |-> {}, now |-> 0, pre |-> EmptySnap, rec |-> <<>>]
 
 HInit(cfg) ==
     [cfg |-> cfg, last |-> [k \in 1..cfg.nkeys |-> NoLast], within |-> TRUE,
      rec |-> <<>>, vis |-> {}, visnow |-> 0,
-     inv |-> NoInv, pend |-> NoPend, growth |-> 0]
+     inv |-> NoInv, pend |-> NoPend, growth |-> 0,
+     \* concurrent cache: every state-changing call so far was followed by sync() ("eager" use);
+     \* await: such a call has not been followed by its sync() yet; nget / napplied: get calls
+     \* made and read records applied (C14)
+     eager |-> TRUE, await |-> FALSE, nget |-> 0, napplied |-> 0,
+     anyinv |-> FALSE]     \* C07: some invalidation call has been made
 
 HKeys(hs) == 1..hs.cfg.nkeys
 IsSync(hs) == hs.cfg.kind = "sync"
@@ -130,13 +135,14 @@ P2Exists(hs, pre, e) == P2Len(hs, pre, e) <= Len(Order2(hs, pre, e.now))
 P2(hs, pre, e) == Prefix(Order2(hs, pre, e.now), P2Len(hs, pre, e))
 
 \* the keys a capacity eviction is expected to remove in this event
-ExpectedEvicted(hs, pre, e) ==
+ExpectedEvictedX(hs, pre, e, prelude) ==
     LET q == LiveOrder(hs, pre, e.now)
         n1 == Min(P1Len(hs, pre, e.now), Len(q))
-        p1 == IF HasPrelude(hs, e) THEN Range(Prefix(q, n1)) ELSE {}
-    IN IF HasPrelude(hs, e) /\ IsContest(hs, pre, e) /\ P2Exists(hs, pre, e)
+        p1 == IF prelude THEN Range(Prefix(q, n1)) ELSE {}
+    IN IF prelude /\ IsContest(hs, pre, e) /\ P2Exists(hs, pre, e)
           /\ e.k \in KeysIn(e.snap.res)
        THEN p1 \cup Range(P2(hs, pre, e)) ELSE p1
+ExpectedEvicted(hs, pre, e) == ExpectedEvictedX(hs, pre, e, HasPrelude(hs, e))
 
 \* residents that disappeared although they were live and not invalidated
 LostLive(hs, pre, e) ==
@@ -242,6 +248,10 @@ NT_C04(hs, pre, e) ==
 (* answers taken right before and right after the call at one clock reading. *)
 
 Allowed_C07(hs, pre, e) ==
+    \* anything inserted or updated after an invalidation call, re-inserted keys included, stays
+    \* retrievable (as long as the history stayed within capacity: otherwise eviction may take it)
+    /\ (hs.anyinv /\ hs.within /\ e.ev = "Get" /\ RefLive(hs, e.k, e.now)) => e.r = hs.last[e.k].v
+    /\ (hs.anyinv /\ hs.within /\ e.ev = "Contains" /\ RefLive(hs, e.k, e.now)) => e.r = TRUE
     /\ (e.ev = "Get" /\ hs.last[e.k].p /\ hs.last[e.k].dead) => e.r = None
     /\ (e.ev = "Contains" /\ hs.last[e.k].p /\ hs.last[e.k].dead) => e.r = FALSE
     /\ e.ev = "Iter" => \A i \in DOMAIN e.items : ~(hs.last[e.items[i].k].p /\ hs.last[e.items[i].k].dead)
@@ -249,6 +259,7 @@ Allowed_C07(hs, pre, e) ==
           /\ e.k \in hs.inv.targeted => e.r = FALSE
           /\ (hs.inv.settled /\ e.k \notin hs.inv.targeted \cup hs.inv.amb /\ e.k \in hs.inv.pre) => e.r = TRUE
 NT_C07(hs, pre, e) ==
+    \/ (hs.anyinv /\ hs.within /\ e.ev \in {"Get", "Contains"} /\ RefLive(hs, e.k, e.now))
     \/ (e.ev \in {"Get", "Contains"} /\ hs.last[e.k].p /\ hs.last[e.k].dead)
     \/ (e.ev = "Contains" /\ hs.inv.on /\ hs.inv.now = e.now /\
           (e.k \in hs.inv.targeted \/ e.k \in hs.inv.pre))
@@ -325,13 +336,29 @@ NT_C11(hs, pre, e) ==
 EagerSync(hs, pre, e) == IsSync(hs) /\ e.ev = "Sync" /\ hs.pend.on /\ hs.pend.now = e.now
                          /\ Quiescent(e.snap)
 
+\* The concurrent cache used eagerly (sync() after every call): an insert of a new key issued at
+\* a quiescent point and the sync() that follows it are judged as one step, with respect to the
+\* order in which maintenance applied the calls (= the call order, in eager use).
+PairReady(hs, e) ==
+    /\ IsSync(hs) /\ e.ev = "Sync" /\ hs.eager /\ hs.pend.on /\ hs.pend.fresh /\ hs.pend.now = e.now
+    /\ Quiescent(e.snap) /\ ExcessOf(hs, hs.pend.pre) = 0
+\* the history as it was before the insert, with every successful get honoured (eager use)
+PairHist(hs) == [hs EXCEPT !.rec = hs.pend.rec,
+                           !.last = [k \in HKeys(hs) |-> [hs.last[k] EXCEPT !.accLo = hs.last[k].acc]]]
+PairEvent(hs, e) == [ev |-> "Insert", k |-> hs.pend.k, v |-> hs.pend.v, w |-> hs.pend.w, now |-> e.now,
+                     snap |-> e.snap]
+
 Allowed_C12(hs, pre, e) ==
-    (IsOp(e) /\ ~IsSync(hs) /\ ~HasF(e.snap, "dropped")) =>
-        \* the fate of the key the call itself names is not a capacity matter
-        LET own == (IF e.ev = "Insert" THEN {e.k} ELSE {}) \cup Targeted(hs, e) \cup Ambiguous(hs, e)
-        IN LostLive(hs, pre, e) \ own = ExpectedEvicted(hs, pre, e) \ own
+    /\ PairReady(hs, e) =>
+          LET h == PairHist(hs)  pe == PairEvent(hs, e)
+          IN LostLive(h, hs.pend.pre, pe) \ {pe.k} = ExpectedEvictedX(h, hs.pend.pre, pe, TRUE) \ {pe.k}
+    /\ (IsOp(e) /\ ~IsSync(hs) /\ ~HasF(e.snap, "dropped")) =>
+          \* the fate of the key the call itself names is not a capacity matter
+          LET own == (IF e.ev = "Insert" THEN {e.k} ELSE {}) \cup Targeted(hs, e) \cup Ambiguous(hs, e)
+          IN LostLive(hs, pre, e) \ own = ExpectedEvicted(hs, pre, e) \ own
 NT_C12(hs, pre, e) ==
-    IsOp(e) /\ ~IsSync(hs) /\ (LostLive(hs, pre, e) # {} \/ ExpectedEvicted(hs, pre, e) # {})
+    \/ IsOp(e) /\ ~IsSync(hs) /\ (LostLive(hs, pre, e) # {} \/ ExpectedEvicted(hs, pre, e) # {})
+    \/ PairReady(hs, e) /\ IsContest(PairHist(hs), hs.pend.pre, PairEvent(hs, e))
 
 -----------------------------------------------------------------------------
 (* C13  TinyLFU admission                                                    *)
@@ -341,9 +368,13 @@ Predicted(hs, pre, e) ==
     /\ pre.fq[e.k] > SeqSum([i \in DOMAIN P2(hs, pre, e) |-> pre.fq[P2(hs, pre, e)[i]]])
 
 Allowed_C13(hs, pre, e) ==
-    (e.ev = "Insert" /\ ~IsSync(hs) /\ IsContest(hs, pre, e)) =>
-        ((e.k \in KeysIn(e.snap.res)) <=> Predicted(hs, pre, e))
-NT_C13(hs, pre, e) == e.ev = "Insert" /\ ~IsSync(hs) /\ IsContest(hs, pre, e)
+    /\ (e.ev = "Insert" /\ ~IsSync(hs) /\ IsContest(hs, pre, e)) =>
+          ((e.k \in KeysIn(e.snap.res)) <=> Predicted(hs, pre, e))
+    /\ (PairReady(hs, e) /\ IsContest(PairHist(hs), hs.pend.pre, PairEvent(hs, e))) =>
+          ((hs.pend.k \in KeysIn(e.snap.res)) <=> Predicted(PairHist(hs), hs.pend.pre, PairEvent(hs, e)))
+NT_C13(hs, pre, e) ==
+    \/ e.ev = "Insert" /\ ~IsSync(hs) /\ IsContest(hs, pre, e)
+    \/ PairReady(hs, e) /\ IsContest(PairHist(hs), hs.pend.pre, PairEvent(hs, e))
 
 -----------------------------------------------------------------------------
 (* C14  (cache-level clause) only get is recorded, once                      *)
@@ -351,8 +382,17 @@ NT_C13(hs, pre, e) == e.ev = "Insert" /\ ~IsSync(hs) /\ IsContest(hs, pre, e)
 HalfLo(x) == x \div 2
 HalfHi(x) == (x + 1) \div 2
 
+\* read records applied by the maintenance that ran inside this call
+ReadsApplied(e) == IF HasF(e, "mx") THEN Len(SelectSeq(e.mx, LAMBDA m : m.t \in {"read.hit", "read.miss"})) ELSE 0
+
 Allowed_C14(hs, pre, e) ==
-    (IsOp(e) /\ ~IsSync(hs) /\ pre.fq # <<>> /\ HasF(e.snap, "fq") /\ e.snap.fq # <<>>) =>
+    /\ (IsOp(e) /\ IsSync(hs) /\ pre.fq # <<>> /\ HasF(e.snap, "fq") /\ e.snap.fq # <<>> /\ HasF(e, "mx")) =>
+          LET n == ReadsApplied(e) IN
+          /\ hs.napplied + n <= hs.nget                       \* only get calls are ever recorded, once
+          /\ n = 0 => e.snap.fq = pre.fq                       \* nothing else moves an estimate
+          /\ (n > 0 /\ ~e.snap.sk.aged) =>
+                \A j \in DOMAIN pre.fq : e.snap.fq[j] >= pre.fq[j] /\ e.snap.fq[j] <= Min(15, pre.fq[j] + n)
+    /\ (IsOp(e) /\ ~IsSync(hs) /\ pre.fq # <<>> /\ HasF(e.snap, "fq") /\ e.snap.fq # <<>>) =>
         IF e.ev # "Get" THEN e.snap.fq = pre.fq
         ELSE IF ~pre.sk.on THEN e.snap.fq = pre.fq
         ELSE IF ~e.snap.sk.aged
@@ -360,7 +400,7 @@ Allowed_C14(hs, pre, e) ==
              /\ \A j \in DOMAIN pre.fq : e.snap.fq[j] >= pre.fq[j] /\ e.snap.fq[j] <= Min(15, pre.fq[j] + 1)
         ELSE \A j \in DOMAIN pre.fq :
                 e.snap.fq[j] >= HalfLo(pre.fq[j]) /\ e.snap.fq[j] <= HalfHi(Min(15, pre.fq[j] + 1))
-NT_C14(hs, pre, e) == IsOp(e) /\ ~IsSync(hs) /\ pre.sk.on
+NT_C14(hs, pre, e) == IsOp(e) /\ pre.sk.on /\ (~IsSync(hs) \/ ReadsApplied(e) > 0)
 
 -----------------------------------------------------------------------------
 (* C16  iteration yields every live entry exactly once                       *)
@@ -419,9 +459,11 @@ HUpdate(P, hs, pre, e) ==
                       settled |-> (~IsSync(hs) \/ (Quiescent(pre) /\ ExcessOf(hs, pre) = 0))]
                 ELSE IF e.ev \in {"Contains", "Iter"} /\ hs.inv.now = e.now THEN hs.inv
                 ELSE NoInv
+        needRec == P \cap {"C12", "C13"} # {}
         \* concurrent cache: remember an insert until the sync() that follows it
         pend1 == IF IsSync(hs) /\ e.ev = "Insert" /\ Quiescent(pre)
-                 THEN [on |-> TRUE, k |-> e.k, v |-> e.v, w |-> e.w,
+                 THEN [pre |-> IF needRec THEN pre ELSE EmptySnap, rec |-> hs.rec,
+                       on |-> TRUE, k |-> e.k, v |-> e.v, w |-> e.w,
                        fits |-> FitsPhys(hs, pre, e) /\ ExcessOf(hs, pre) = 0, fresh |-> e.k \notin KeysIn(pre.res),
                        keep |-> KeysIn(pre.res), now |-> e.now]
                  ELSE NoPend
@@ -430,16 +472,23 @@ HUpdate(P, hs, pre, e) ==
                    ELSE IF e.ev = "Insert" /\ e.k \in KeysIn(pre.res)
                    THEN hs.growth + SatSub(e.w, Ent(pre.res, e.k).w)
                    ELSE hs.growth
-        needRec == P \cap {"C12", "C13"} # {}
+        changing == e.ev \in {"Insert", "Get", "Invalidate", "InvalidateAll"}
         needVis == "C07" \in P
         needPend == P \cap {"C03", "C04", "C12", "C13"} # {}
-    IN [h1 EXCEPT !.within = IF "C03" \in P THEN within1 ELSE hs.within,
+    IN [h1 EXCEPT !.within = IF P \cap {"C03", "C07"} # {} THEN within1 ELSE hs.within,
+                  !.anyinv = IF needVis THEN (hs.anyinv \/ isInv) ELSE hs.anyinv,
                   !.rec = IF needRec THEN RecUpdate(hs, e) ELSE hs.rec,
                   !.vis = IF needVis THEN vis1 ELSE hs.vis,
                   !.visnow = IF needVis THEN e.now ELSE hs.visnow,
                   !.inv = IF needVis THEN inv1 ELSE hs.inv,
                   !.pend = IF needPend THEN pend1 ELSE hs.pend,
-                  !.growth = IF "C04" \in P THEN growth1 ELSE hs.growth]
+                  !.growth = IF "C04" \in P THEN growth1 ELSE hs.growth,
+                  !.eager = IF needRec /\ IsSync(hs) THEN (hs.eager /\ ~(changing /\ hs.await)) ELSE hs.eager,
+                  !.await = IF needRec /\ IsSync(hs)
+                            THEN (IF changing THEN TRUE ELSE IF e.ev = "Sync" THEN FALSE ELSE hs.await)
+                            ELSE hs.await,
+                  !.nget = IF "C14" \in P /\ e.ev = "Get" THEN hs.nget + 1 ELSE hs.nget,
+                  !.napplied = IF "C14" \in P /\ IsSync(hs) THEN hs.napplied + ReadsApplied(e) ELSE hs.napplied]
 
 -----------------------------------------------------------------------------
 (* All sequential monitors together                                          *)
